@@ -45,6 +45,10 @@ func (e *Engine) load(st *State, p Ptr, t types.Type) Value {
 	}
 	cell := e.objCell(st, p)
 	if p.Idx == nil {
+		if sv, ok := cell.(SliceV); ok && isStringT(t) {
+			// *(*string)(unsafe.Pointer(&byteSlice))
+			return e.sliceToStr(st, sv)
+		}
 		if b, ok := cell.(BArrV); ok {
 			if _, isArr := t.Underlying().(*types.Array); !isArr {
 				return e.loadScalarAt(st, b, e.k64(0), t)
